@@ -292,19 +292,19 @@ induction cig as [|[op len] cig IH]; intros pre vp queue flank Hw Hf Hs Hq y Hy.
   pose proof (query_units_expand_snoc pre op len) as Hqu.
   cbn [detect_loop] in Hy.
   destruct (skip_progress_spec vp (start + ref_units (expand pre)) Hf Hs) as (dropped & Hd & Hlow).
-  set (vp1 := skip_progress nv vp (start + ref_units (expand pre))) in *.
+  remember (skip_progress nv vp (start + ref_units (expand pre))) as vp1 eqn:Evp1. clear Evp1.
   assert (Hf1 : Forall fresh_entry vp1).
-  { rewrite Hd in Hf. apply Forall_app in Hf. tauto. }
+  { rewrite Hd in Hf. apply Forall_app in Hf. apply Hf. }
   assert (Hs1 : sorted_vp vp1) by (rewrite Hd in Hs; eapply sorted_vp_app; eauto).
   (* operations that only move the positions *)
   assert (Hmove : forall fl,
      In y (detect_loop R cig query quals nv vp1 queue fl
              (start + ref_units (expand (pre ++ [(op, len)]))) (query_units (expand (pre ++ [(op, len)])))) ->
      good_yield y).
-  { intros fl Hy'. eapply IH; eauto. }
+  { intros fl Hy'. apply (IH (pre ++ [(op, len)]) vp1 queue fl Hw' Hf1 Hs1 Hq y Hy'). }
   (* operations that queue, handle and drain *)
   assert (Hwork : forall sk ref_end,
-     ref_end <= start + ref_units (expand pre) + len ->
+     (op = OpI \/ ref_end <= start + ref_units (expand pre) + len) ->
      (op = OpI \/ op = OpD \/ is_match op = true) ->
      In y (let (newq, vp') := enqueue sk op nv vp1 (start + ref_units (expand pre)) (query_units (expand pre)) ref_end in
            let queue1 := map (handle op query quals nv (query_units (expand pre)) len) (queue ++ newq) in
@@ -332,13 +332,13 @@ induction cig as [|[op len] cig IH]; intros pre vp queue flank Hw Hf Hs Hq y Hy.
         destruct Hop as [->|[->|Hm]].
         + (* I: never an SNV *) destruct Hsnv as [Hl _]. rewrite (HI eq_refl) in Hl. discriminate.
         + (* D *) exists (del_allele len fresh), (del_allele len fresh). split; [reflexivity|].
-          split; apply fresh_del; lia.
+          destruct Hre as [Hre|Hre]; [discriminate|]. split; apply fresh_del; lia.
         + (* match *)
           assert (Hqs : query_units (expand pre) + vpos (vvar e) - (start + ref_units (expand pre))
                         = query_units (expand pre) + (vpos (vvar e) - (start + ref_units (expand pre)))) by lia.
           assert (Hidx : query_index whole start (vpos (vvar e)) =
                          Some (query_units (expand pre) + (vpos (vvar e) - (start + ref_units (expand pre))))).
-          { eapply query_index_at; eauto. lia. }
+          { destruct Hre as [Hre|Hre]; [subst op; discriminate|]. eapply query_index_at; eauto. lia. }
           assert (Hcase : alleles (mkVP (vid e) (query_units (expand pre) + vpos (vvar e) - (start + ref_units (expand pre)))
                      (match op with
                       | OpM | OpEQ | OpX =>
@@ -358,26 +358,221 @@ induction cig as [|[op len] cig IH]; intros pre vp queue flank Hw Hf Hs Hq y Hy.
                      (query_units (expand pre) + (vpos (vvar e) - (start + ref_units (expand pre))) - query_units (expand pre)) len 1 fresh]).
           { rewrite Hqs. destruct op; try discriminate; reflexivity. }
           destruct op; try discriminate.
-          all: eexists; eexists; split; [exact Hcase|]; split; apply fresh_match; auto; lia. }
+          all: destruct Hre as [Hre|Hre]; [discriminate|];
+               eexists; eexists; split; [exact Hcase|]; split; apply fresh_match; auto; lia. }
     destruct (drain queue1) as [ys queue2] eqn:Edr. destruct (drain_spec _ _ _ Edr) as [Hys Hq2].
     apply in_app_or in Hy' as [Hy'|Hy'].
     - destruct (Hys y Hy') as (e & He & Hv). rewrite Forall_forall in Hq1. eapply verdict_good; eauto.
-    - eapply IH; eauto.
-      + rewrite Ht in Hf1. apply Forall_app in Hf1. tauto.
+    - apply (IH (pre ++ [(op, len)]) vp' queue2 true Hw'); [| | |exact Hy'].
+      + rewrite Ht in Hf1. apply Forall_app in Hf1. apply Hf1.
       + rewrite Ht in Hs1. eapply sorted_vp_app; eauto.
       + rewrite Forall_forall in *. auto. }
   destruct op.
-  + (* M *) apply (Hwork _ _ (Nat.le_refl _)); [auto|].
+  + (* M *) apply (Hwork (r_ins_left_flank R && negb flank) (start + ref_units (expand pre) + len) (or_intror (Nat.le_refl _))); [auto|].
     rewrite Hru, Hqu. cbn [ref_unit query_unit]. rewrite !Nat.mul_1_l, !Nat.add_assoc. exact Hy.
   + (* I *) apply (Hwork (r_ins_left_flank R && negb flank)
-                        (start + ref_units (expand pre) + (if r_ins_span R then 1 else len))).
-    * destruct (r_ins_span R); [|lia].
-      (* an insertion of length 0 cannot queue anything useful; bound still needed *)
-      destruct len; [|lia].
-      (* len = 0: ref_end = rp + 1 > rp + 0: handled separately below *)
-      exfalso. clear -Hy. admit_placeholder.
-    * auto.
-    * rewrite Hru, Hqu. cbn [ref_unit query_unit]. rewrite Nat.mul_0_l, Nat.mul_1_l, Nat.add_0_r. exact Hy.
-Abort.
+                        (start + ref_units (expand pre) + (if r_ins_span R then 1 else len))); auto.
+    rewrite Hru, Hqu. cbn [ref_unit query_unit]. rewrite Nat.mul_0_l, Nat.mul_1_l, Nat.add_0_r. exact Hy.
+  + (* D *) apply (Hwork (r_ins_left_flank R && negb flank) (start + ref_units (expand pre) + len) (or_intror (Nat.le_refl _))); [auto|].
+    rewrite Hru, Hqu. cbn [ref_unit query_unit]. rewrite Nat.mul_1_l, Nat.mul_0_l, Nat.add_0_r, !Nat.add_assoc. exact Hy.
+  + (* N *) apply (Hmove false).
+    rewrite Hru, Hqu. cbn [ref_unit query_unit]. rewrite Nat.mul_1_l, Nat.mul_0_l, Nat.add_0_r, !Nat.add_assoc. exact Hy.
+  + (* S *) apply (Hmove flank).
+    rewrite Hru, Hqu. cbn [ref_unit query_unit]. rewrite Nat.mul_1_l, Nat.mul_0_l, Nat.add_0_r. exact Hy.
+  + (* H *) apply (Hmove flank).
+    rewrite Hru, Hqu. cbn [ref_unit query_unit]. rewrite !Nat.mul_0_l, !Nat.add_0_r. exact Hy.
+  + (* P *) apply (Hmove flank).
+    rewrite Hru, Hqu. cbn [ref_unit query_unit]. rewrite !Nat.mul_0_l, !Nat.add_0_r. exact Hy.
+  + (* = *) apply (Hwork (r_ins_left_flank R && negb flank) (start + ref_units (expand pre) + len) (or_intror (Nat.le_refl _))); [auto|].
+    rewrite Hru, Hqu. cbn [ref_unit query_unit]. rewrite !Nat.mul_1_l, !Nat.add_assoc. exact Hy.
+  + (* X *) apply (Hwork (r_ins_left_flank R && negb flank) (start + ref_units (expand pre) + len) (or_intror (Nat.le_refl _))); [auto|].
+    rewrite Hru, Hqu. cbn [ref_unit query_unit]. rewrite !Nat.mul_1_l, !Nat.add_assoc. exact Hy.
+Qed.
+
+
+(* --- the initial progress list *)
+Fixpoint sorted_ids (l : list nat) : Prop :=
+  match l with
+  | [] => True
+  | j :: r => Forall (fun j' => vpos (nth j nv dummy) <= vpos (nth j' nv dummy)) r /\ sorted_ids r
+  end.
+
+Lemma non_overlapping_props : forall (vs : list ivar) seen skip,
+  (forall j v, In (j, v) vs -> nth_error nv j = Some v) -> sorted_pos vs ->
+  (forall j, In j (non_overlapping vs seen skip) -> exists v, In (j, v) vs) /\
+  sorted_ids (non_overlapping vs seen skip).
+Proof.
+induction vs as [|[j v] rest IH]; intros seen skip Hnth Hs.
+- cbn. split; [intros ? []|exact I].
+- assert (Hnth' : forall j v, In (j, v) rest -> nth_error nv j = Some v) by (intros; apply Hnth; now right).
+  destruct Hs as [Hall Hs].
+  assert (Hdrop : forall seen' skip',
+            (forall j0, In j0 (non_overlapping rest seen' skip') -> exists v0, In (j0, v0) ((j, v) :: rest)) /\
+            sorted_ids (non_overlapping rest seen' skip')).
+  { intros seen' skip'. destruct (IH seen' skip' Hnth' Hs) as [H1 H2]. split; [|exact H2].
+    intros j0 Hj0. destruct (H1 j0 Hj0) as (v0 & Hv0). exists v0. now right. }
+  assert (Hkeep : forall seen' skip',
+            (forall j0, In j0 (j :: non_overlapping rest seen' skip') -> exists v0, In (j0, v0) ((j, v) :: rest)) /\
+            sorted_ids (j :: non_overlapping rest seen' skip')).
+  { intros seen' skip'. destruct (IH seen' skip' Hnth' Hs) as [H1 H2]. split.
+    - intros j0 [<-|Hj0]; [exists v; now left|]. destruct (H1 j0 Hj0) as (v0 & Hv0). exists v0. now right.
+    - cbn [sorted_ids]. split; [|exact H2]. rewrite Forall_forall. intros j' Hj'.
+      destruct (H1 j' Hj') as (v' & Hv'). rewrite Forall_forall in Hall. specialize (Hall _ Hv'). cbn [snd] in Hall.
+      rewrite (nth_error_nth nv j dummy (Hnth j v (or_introl eq_refl))).
+      rewrite (nth_error_nth nv j' dummy (Hnth' j' v' Hv')). exact Hall. }
+  cbn [non_overlapping].
+  destruct (match skip with Some d => vpos v <? d | None => false end); [apply Hdrop|].
+  destruct (existsb (Nat.eqb (vpos v)) seen); [apply Hdrop|].
+  destruct (length (valt v) <? length (vref v)); [|apply Hkeep].
+  destruct rest as [|[j1 v1] rest1] eqn:Er.
+  + split; [intros j0 [<-|[]]; exists v; now left|]. cbn. split; [constructor|exact I].
+  + destruct (vpos v1 <? vpos v + length (vref v)); [apply Hdrop|apply Hkeep].
+Qed.
+
+Lemma index_from_spec {A} (l : list A) : forall k j x, In (j, x) (index_from k l) -> k <= j /\ nth_error l (j - k) = Some x.
+Proof.
+induction l as [|y l IH]; intros k j x H; [contradiction|].
+cbn [index_from] in H. destruct H as [H|H].
+- injection H as <- <-. split; [lia|]. now rewrite Nat.sub_diag.
+- destruct (IH _ _ _ H) as [Hk Hn]. split; [lia|]. replace (j - k) with (S (j - S k)) by lia. exact Hn.
+Qed.
+
+Lemma sorted_vp_map l : sorted_ids l ->
+  sorted_vp (map (fun j => build_var_progress (nth j nv dummy) j) l).
+Proof.
+induction l as [|j r IH]; [auto|]. cbn [sorted_ids map sorted_vp]. intros [Hall Hs]. split; [|auto].
+rewrite Forall_map. exact Hall.
+Qed.
 
 End NoRef.
+
+(* --- the theorem: SNVs without reference *)
+Theorem detect_noref_snv :
+  forall (R : rules) (variants : list variant) (start : nat) (cig : cigar) (query quals : list Z) (j a q : nat) (v : variant),
+  sorted_pos (index_from 0 (map normalized variants)) ->
+  In (j, a, q) (detect_noref R variants start cig query quals) ->
+  nth_error (map normalized variants) j = Some v -> snv_shape v ->
+  a < 2 /\ exists k, query_index cig start (vpos v) = Some k /\ base_at query k = base_at (get_allele v a) 0.
+Proof.
+intros R variants start cig query quals j a q v Hs Hin Hn Hsnv.
+unfold detect_noref in Hin. set (nv := map normalized variants) in *.
+set (valid := non_overlapping (index_from 0 nv) [] None) in *.
+set (vp := map (fun j => build_var_progress (nth j nv (mkVar 0 [] [])) j) valid) in *.
+assert (Hidx : forall j v, In (j, v) (index_from 0 nv) -> nth_error nv j = Some v).
+{ intros j0 v0 H0. destruct (index_from_spec nv 0 j0 v0 H0) as [_ H1]. now rewrite Nat.sub_0_r in H1. }
+destruct (non_overlapping_props nv (index_from 0 nv) [] None Hidx Hs) as [Hval Hsorted]. fold valid in Hval, Hsorted.
+assert (Hf : Forall (fresh_entry nv) vp).
+{ unfold vp. rewrite Forall_map, Forall_forall. intros j0 Hj0. destruct (Hval j0 Hj0) as (v0 & Hv0).
+  pose proof (Hidx _ _ Hv0) as Hn0.
+  assert (Hlt : j0 < length nv) by (apply nth_error_Some; congruence).
+  split; [exact Hlt|]. unfold vvar. cbn [build_var_progress vid alleles]. fold (dummy).
+  intros [H1 H2]. rewrite H1, H2. reflexivity. }
+assert (Hsv : sorted_vp nv vp) by (apply sorted_vp_map; exact Hsorted).
+destruct (skip_progress_spec nv vp start Hf Hsv) as (dropped & Hd & _).
+assert (Hf1 : Forall (fresh_entry nv) (skip_progress nv vp start)).
+{ rewrite Hd in Hf. apply Forall_app in Hf. apply Hf. }
+assert (Hs1 : sorted_vp nv (skip_progress nv vp start)).
+{ rewrite Hd in Hsv. eapply sorted_vp_app; eauto. }
+pose proof (detect_loop_good R query quals nv start cig cig [] (skip_progress nv vp start) [] false eq_refl Hf1 Hs1
+              (Forall_nil _) (j, a, q)) as Hg.
+cbn [expand flat_map ref_units query_units fold_right] in Hg. rewrite Nat.add_0_r in Hg.
+specialize (Hg Hin). destruct Hg as [Hlt Hg].
+rewrite (nth_error_nth nv j dummy Hn) in Hg. exact (Hg Hsnv).
+Qed.
+
+(* never the other allele: if the read shows, at the base aligned to the SNV, the base of the allele its haplotype
+   carries, then any reported allele is the carried one *)
+Corollary detect_noref_snv_never_wrong :
+  forall (R : rules) (variants : list variant) (start : nat) (cig : cigar) (query quals : list Z) (j a q : nat)
+         (v : variant) (carried : nat),
+  sorted_pos (index_from 0 (map normalized variants)) ->
+  In (j, a, q) (detect_noref R variants start cig query quals) ->
+  nth_error (map normalized variants) j = Some v -> snv_shape v ->
+  carried <= 1 ->
+  (forall k, query_index cig start (vpos v) = Some k -> base_at query k = base_at (get_allele v carried) 0) ->
+  base_at (vref v) 0 <> base_at (valt v) 0 ->
+  a = carried.
+Proof.
+intros R variants start cig query quals j a q v carried Hs Hin Hn Hsnv Hc Herr Hdiff.
+destruct (detect_noref_snv R variants start cig query quals j a q v Hs Hin Hn Hsnv) as (Ha & k & Hk & Hb).
+specialize (Herr k Hk). rewrite Herr in Hb.
+destruct a as [|[|a]]; destruct carried as [|[|c]]; try lia; cbn [get_allele] in Hb; congruence.
+Qed.
+
+(* --- query_index in terms of unit operations *)
+Lemma repeat_app_split {A} (x : A) : forall len (X pre : list A) m post,
+  repeat x len ++ X = pre ++ m :: post ->
+  (length pre < len /\ pre = repeat x (length pre) /\ m = x) \/
+  (exists pre', pre = repeat x len ++ pre' /\ X = pre' ++ m :: post).
+Proof.
+induction len as [|len IH]; intros X pre m post H.
+- right. exists pre. now split.
+- cbn [repeat app] in H. destruct pre as [|y pre].
+  + cbn [app] in H. injection H as <- _. left. cbn. repeat split; lia.
+  + cbn [app] in H. injection H as <- H. destruct (IH _ _ _ _ H) as [(Hl & Hp & Hm)|(pre' & Hp & HX)].
+    * left. cbn [length repeat]. repeat split; [lia| |exact Hm]. now f_equal.
+    * right. exists pre'. split; [|exact HX]. cbn [repeat app]. now f_equal.
+Qed.
+
+Lemma query_units_repeat op len : query_units (repeat op len) = query_unit op * len.
+Proof. induction len as [|len IH]; [now rewrite Nat.mul_0_r|]. cbn [repeat query_units fold_right]. fold (query_units (repeat op len)). rewrite IH. lia. Qed.
+
+Lemma qidx_units : forall cig pre m post rp qp,
+  expand cig = pre ++ m :: post -> is_match m = true ->
+  qidx cig rp qp (rp + ref_units pre) = Some (qp + query_units pre).
+Proof.
+induction cig as [|[op len] cig IH]; intros pre m post rp qp He Hm.
+- destruct pre; discriminate.
+- change (expand ((op, len) :: cig)) with (repeat op len ++ expand cig) in He.
+  destruct (repeat_app_split op len _ _ _ _ He) as [(Hl & Hp & ->)|(pre' & -> & HX)].
+  + cbn [qidx]. rewrite Hm. rewrite Hp, ref_units_repeat, query_units_repeat.
+    assert (ref_unit op = 1) as -> by (destruct op; try discriminate; reflexivity).
+    assert (query_unit op = 1) as -> by (destruct op; try discriminate; reflexivity).
+    rewrite !Nat.mul_1_l. cbn [andb].
+    destruct (rp <=? rp + length pre) eqn:E1; [|apply Nat.leb_gt in E1; lia].
+    destruct (rp + length pre <? rp + len) eqn:E2; [|apply Nat.ltb_ge in E2; lia].
+    cbn [andb]. f_equal. lia.
+  + cbn [qidx]. rewrite ref_units_app, query_units_app, ref_units_repeat, query_units_repeat.
+    assert (Hc : is_match op && (rp <=? rp + (ref_unit op * len + ref_units pre'))
+                 && (rp + (ref_unit op * len + ref_units pre') <? rp + len) = false).
+    { destruct (is_match op) eqn:Eo; [|reflexivity].
+      assert (ref_unit op = 1) as -> by (destruct op; try discriminate; reflexivity).
+      destruct (rp + (1 * len + ref_units pre') <? rp + len) eqn:E; [apply Nat.ltb_lt in E; lia|].
+      now rewrite andb_false_r. }
+    rewrite Hc.
+    replace (rp + (ref_unit op * len + ref_units pre')) with (rp + ref_unit op * len + ref_units pre') by lia.
+    rewrite (IH pre' m post (rp + ref_unit op * len) (qp + query_unit op * len) HX Hm).
+    f_equal. lia.
+Qed.
+
+(* the SNV case in the vocabulary of the full statement (unit operations) *)
+Theorem detect_noref_never_wrong_snv :
+  forall (R : rules) (variants : list variant) (start : nat) (cig : cigar) (query quals : list Z) (j a q : nat)
+         (v : variant) (carried : nat) (pre V post : list cop) (q1 q2 : list Z),
+  sorted_pos (index_from 0 (map normalized variants)) ->
+  In (j, a, q) (detect_noref R variants start cig query quals) ->
+  nth_error (map normalized variants) j = Some v ->
+  snv_shape v -> vref v <> valt v -> carried <= 1 ->
+  expand cig = pre ++ V ++ post -> vpos v = start + ref_units pre -> allele_units v carried V ->
+  query = q1 ++ get_allele v carried ++ q2 -> length q1 = query_units pre ->
+  a = carried.
+Proof.
+intros R variants start cig query quals j a q v carried pre V post q1 q2 Hs Hin Hn Hsnv Hd Hc He Hp HV Hq Hq1.
+destruct Hsnv as [Hr Ha].
+destruct (vref v) as [|rb [|? ?]] eqn:Er; try discriminate. destruct (valt v) as [|ab [|? ?]] eqn:Ea; try discriminate.
+assert (Hm : exists m, V = [m] /\ is_match m = true).
+{ destruct carried as [|c]; cbn [allele_units] in HV.
+  - destruct HV as [Hf Hl]. rewrite Er in Hl. destruct V as [|m [|? ?]]; try discriminate. exists m. split; [reflexivity|].
+    cbn in Hf. now rewrite andb_true_r in Hf.
+  - destruct HV as (M & Hf & Hl & ->). rewrite Er, Ea in *. cbn in Hl. destruct M as [|m [|? ?]]; try discriminate.
+    exists m. cbn. split; [reflexivity|]. cbn in Hf. now rewrite andb_true_r in Hf. }
+destruct Hm as (m & -> & Hm). cbn [app] in He.
+assert (Hk : query_index cig start (vpos v) = Some (query_units pre)).
+{ unfold query_index. rewrite Hp. rewrite (qidx_units cig pre m post start 0 He Hm). reflexivity. }
+apply (detect_noref_snv_never_wrong R variants start cig query quals j a q v carried Hs Hin Hn); auto.
+- unfold snv_shape. rewrite Er, Ea. now split.
+- intros k Hk'. rewrite Hk in Hk'. injection Hk' as <-. rewrite Hq. unfold base_at.
+  rewrite app_nth2 by lia. rewrite Hq1, Nat.sub_diag.
+  destruct carried as [|[|c]]; cbn [get_allele]; rewrite ?Er, ?Ea; try reflexivity; lia.
+- rewrite Er, Ea. cbn. intros Heq. apply Hd. now f_equal.
+Qed.
